@@ -204,6 +204,8 @@ pub enum SourceSpec {
     Cursor,
     /// seekable stream returning short reads: chunk sizes cycle through the list
     Chunked(Vec<usize>),
+    /// like Chunked, but handed to flute positioned at the given offset (not at its start)
+    ChunkedAt(Vec<usize>, usize),
     /// a real file on disk (std::fs::File)
     File,
     /// BufReader over a real file
@@ -401,6 +403,7 @@ impl Read for ChunkedReader {
             n = n.min(c);
         }
         buf[..n].copy_from_slice(&self.data[self.pos..self.pos + n]);
+        self.log.lock().unwrap().push(format!("read({},{})", self.pos, n));
         self.pos += n;
         Ok(n)
     }
@@ -527,6 +530,12 @@ pub fn build_object(o: &ObjSpec) -> Result<BuiltObject, String> {
         ),
         SourceSpec::Chunked(chunks) => {
             let (r, log) = ChunkedReader::new(Arc::new(o.data.clone()), chunks.clone());
+            seek_log = Some(log);
+            ObjectDesc::create_from_stream(Box::new(r), &o.content_type, &url, o.md5, cfg)
+        }
+        SourceSpec::ChunkedAt(chunks, at) => {
+            let (mut r, log) = ChunkedReader::new(Arc::new(o.data.clone()), chunks.clone());
+            r.pos = (*at).min(o.data.len());
             seek_log = Some(log);
             ObjectDesc::create_from_stream(Box::new(r), &o.content_type, &url, o.md5, cfg)
         }
